@@ -13,7 +13,7 @@ theorem holds for every `Env`.
 import TraitsVerif.Lemmas.ValOrder
 import TraitsVerif.Generated.ValidateTables
 namespace TraitsVerif.Props.C03
-open TraitsVerif TraitsVerif.Py TraitsVerif.Model
+open TraitsVerif TraitsVerif.Py.Value TraitsVerif.Model.Val
 
 /-! ## The tie to the source tables -/
 
@@ -25,9 +25,9 @@ new or removed case, a flipped or un-negated range comparison changes the
 generated file and this stops checking. -/
 theorem C03_tables_modelled :
     Generated.validateHandlers = handlerTable ∧
-    Generated.complexCaseLabels = Model.complexCaseLabels ∧
+    Generated.complexCaseLabels = Model.Val.complexCaseLabels ∧
     Generated.setValidateCaseLabels = setValidateLabels ∧
-    Generated.validateTraitEnum = Model.validateTraitEnum ∧
+    Generated.validateTraitEnum = Model.Val.validateTraitEnum ∧
     Generated.floatRangeTests = ["!>low", "!>=low", "!<high", "!<=high"] := by decide
 
 /-- Every descriptor kind the model gives a `case` arm is a kind the C switch
@@ -35,7 +35,7 @@ has, and every kind `fastAlone` implements has its function in the table. -/
 theorem C03_kinds_covered (d : Desc) (h : d.isAlt = true) :
     d.kind ∈ Generated.complexCaseLabels ∧ d.kind ∈ Generated.setValidateCaseLabels ∧
     Generated.validateHandlers[d.kind]? ≠ some "NULL" := by
-  cases d <;> simp [Desc.isAlt] at h <;> decide
+  cases d <;> simp [Desc.isAlt] at h <;> (simp only [Desc.kind]; decide)
 
 /-! ## The two C copies of every case agree -/
 
@@ -123,18 +123,15 @@ theorem C03_tuple (E : Env) (items : List (Option Desc)) (v : Val) :
 theorem C03_tuple_reuse (E : Env) (items : List (Option Desc)) (sub : Bool) (vs ws : List Val)
     (hlen : items.length = vs.length)
     (hok : elementwise (List.zipWith (optValidate E) items vs) = .ok ws) :
-    (fastAlone E (.tuple items) (.tuple sub vs) = .ok (.tuple sub vs) ↔ (ws = vs ∨ sub = false)) := by
+    (fastAlone E (.tuple items) (.tuple sub vs) = .ok (.tuple sub vs) ↔ ws = vs) := by
   have := (C03_tuple E items (.tuple sub vs)).2 sub vs rfl hlen
   rw [this, hok]
   by_cases hb : ws = vs
   · simp [hb]
-  · simp only [hb, if_false, false_or]
-    constructor
-    · intro h; cases h; rfl
-    · intro h; subst h
-      have h2 := elementwise_ok_length _ _ hok
-      constructor
-      all_goals simp_all
+  · simp only [hb, if_false, iff_false]
+    intro h
+    cases h
+    exact hb rfl
 
 /-! ## Fast ≡ Python -/
 
@@ -154,7 +151,7 @@ tuple-subclass instances (F11): full agreement, including "Python raises ⇒ the
 fast path does not accept". -/
 theorem C03_agree_partial (E : Env) (hE : CastIdem E) (t : TraitType) (d : Desc) (v : Val)
     (hl : t.isLeaf = true) (hc : t.leafClean = true) (hd : descOf E t = some d)
-    (hp : hasPy t = true) (hv : v.notTupleSub = true) :
+    (hp : hasPy t = true) (hv : (∃ items, t = .tuple items) → v.notTupleSub = true) :
     Agree (fastAlone E d v) (pyValidate E t v) :=
   agree_leaf E hE t d v hl hc hd hp hv
 
@@ -183,7 +180,7 @@ theorem E0_castIdem : CastIdem E0 := by
   intro t v h; simp [E0, h]
 
 example : (TraitType.either [.int, .tuple [.float, .str]] true).clean = true := by decide
-example : ∀ e, pyValidate E0 (.either [.int, .tuple [.float, .str]] true) Val.none ≠ .raised e := by decide
+example : pyValidate E0 (.either [.int, .tuple [.float, .str]] true) Val.none = .ok Val.none := by decide
 
 /-- F11: Tuple(Int, Int) on an instance of a tuple subclass. -/
 theorem C03_agree_fails_at_tuple_subclass :
@@ -217,7 +214,7 @@ theorem C03_agree_fails_at_compound_exception :
 /-- The full statement is false of the model (hence, by correspondence, of the code). -/
 theorem C03_agree_full_is_false : ¬ C03_agree_full := by
   intro h
-  have := h E0 E0_castIdem (.callable false) (.callable (some false)) Val.none (by decide) (by decide)
+  have := h E0 E0_castIdem (.callable false) (.callable (some false)) Val.none (by simp [descOf]) rfl
   rw [C03_agree_fails_at_callable_none.1, C03_agree_fails_at_callable_none.2] at this
   simp [Agree] at this
 
